@@ -16,7 +16,7 @@ import itertools
 import re
 
 from ..absdom import PregexHooks, make_operand
-from ..classsets import merge, named_classes
+from ..classsets import merge, named_classes, of_chars, denotes
 from ..interp import FuncRef, Interp, Obj, PyRaise
 from ..model import AnalysisError, norm_text
 from .c06 import set_of_text, tables
@@ -48,8 +48,8 @@ def canonical_verbose(members, neg, W, two_as_range=False):
 
 
 class AlgHooks(PregexHooks):
-    """__Class.__init__ is replaced by its effect summary (polarity flag, verbose text denoting the same
-    set, pattern); the handed text is recorded.  __process itself is not interpreted (C06 note)."""
+    """Records what the algebra hands to __Class.__init__ (text, polarity, simplify flag); the constructor and the
+    class pipeline behind it (__process ...) are then interpreted as well."""
 
     def __init__(self, model, W):
         super().__init__(model)
@@ -62,24 +62,8 @@ class AlgHooks(PregexHooks):
             names = ["self", "pattern", "is_negated", "simplify_word"]
             b = dict(zip(names, args))
             b.update(kwargs)
-            o, text, neg = b["self"], b["pattern"], b["is_negated"]
-            self.handed.append((text, neg, b.get("simplify_word", False)))
-            if text == ".":
-                verbose = "."
-            else:
-                d = set_of_text(text)
-                if d is None:
-                    verbose = text
-                else:
-                    members = [chr(c) for a, z in d[0] for c in range(a, z + 1)] if sum(z - a + 1 for a, z in d[0]) < 5000 else None
-                    verbose = canonical_verbose(members, d[1], self.W) if members is not None else text
-            o.fields["_Class__is_negated"] = neg
-            o.fields["_Class__verbose"] = verbose
-            o.fields["_Pregex__pattern"] = verbose
-            o.fields["_Pregex__type"] = _tval(self.model, "Class")
-            o.fields["_Pregex__repeatable"] = True
-            o.fields["_Pregex__compiled"] = None
-            return None
+            self.handed.append((b.get("pattern"), b.get("is_negated"), b.get("simplify_word", False)))
+            return NotImplemented
         return super().intercept(interp, target, args, kwargs, node)
 
 
@@ -146,7 +130,7 @@ def run(ctx, model):
     n_alg = 0
     jobs = []
     # iteration order of the interpreted sets (stands for the hash seed): source order, reversed, sorted, reverse-sorted
-    orders = (0, 1) if ctx.tier == "quick" else (0, 1, 2, 3)
+    orders = (0, 10) if ctx.tier == "quick" else (0, 1, 2, 3, 10, 11, 12, 13)
     ctx.extra["set_iteration_orders"] = list(orders)
     for alpha in alphabets:
         fs = {False: forms(alpha, W, False), True: forms(alpha, W, True)}
@@ -184,15 +168,20 @@ def run(ctx, model):
                           f"class {'union' if op == '|' else 'subtraction'} fails with {payload[0]}", f.node.lineno,
                           inp=_shape(ma, mb, alpha, op), detail=inp)
             continue
-        text, rneg = payload
-        d = set_of_text(text)
-        got = {chr(c) for a, z in d[0] for c in range(a, z + 1)} if d else None
-        if d is None or got != set(want) or d[1] != neg or rneg != neg:
+        text, rneg, pattern, verbose, fneg = payload
+        want_iv = of_chars(want)
+        problems = []
+        for what, t in (("text handed to the class pipeline", text), ("emitted pattern", pattern), ("stored verbose text", verbose)):
+            okd, why = denotes(t, want_iv, neg, 0) if isinstance(t, str) else (False, f"{what} is {t!r}")
+            if not okd:
+                problems.append(f"{what}: {why}")
+        if rneg != neg or fneg != neg:
+            problems.append(f"polarity flags {rneg}/{fneg}, expected {neg}")
+        if problems:
             ctx.violation("R-SETALG", f.relpath, f.short, "result set",
                           f"class {'union' if op == '|' else 'subtraction'} is not exact set algebra", f.node.lineno,
                           inp=_shape(ma, mb, alpha, op),
-                          detail=f"{inp}: pipeline receives {text!r} = {sorted(got) if got is not None else 'unparsable'}"
-                                 f"{' negated' if d and d[1] else ''}; required {sorted(want)}{' negated' if neg else ''}")
+                          detail=f"{inp}: required {sorted(want)}{' negated' if neg else ''}; " + "; ".join(problems))
     ctx.floor("R-SETALG", n_alg, 1500, "operand pairs")
 
     # ---------------- R-INVERT
@@ -250,8 +239,9 @@ def _eval_chunk(args):
             _interp.SET_ORDER = 0
         if kind == "raise":
             out.append(("raise", (v.name, norm_text(v.node) if v.node is not None else None)))
-        elif hooks.handed:
-            out.append(("ok", (hooks.handed[-1][0], hooks.handed[-1][1])))
+        elif hooks.handed and isinstance(v, Obj):
+            out.append(("ok", (hooks.handed[-1][0], hooks.handed[-1][1], v.fields.get("_Pregex__pattern"), v.fields.get("_Class__verbose"),
+                               v.fields.get("_Class__is_negated"))))
         else:
             out.append(("raise", ("<no class constructed>", None)))
     return out
